@@ -213,8 +213,191 @@ enum Pat {
     Adv(usize),
 }
 
+
+// ---------------------------------------------------------------- engine `sdc`: a real connection typed with a segmented payload
+//
+// `sdc <role> <wc> <grants k,k,…|-> [#fs:<hex>] [#rq:<hex>] <payload> …`   payload = `<hex>|<hex>|…` (segments, `-` = empty)
+// A real `h3::client` / `h3::server` connection with `B = Segs` over the payload-generic transport `c14_sim.rs`, grease off.  Client:
+// `send_request(GET https://a/)`, one `send_data(Segs)` per payload, `finish()`.  Server: the peer's request (`#rq:` = its HEADERS
+// frame), `accept`, `resolve_request`, `send_response(200)`, the same.  The request stream starts with `wc` bytes of write credit;
+// whenever a call is pending the next grant is added; when the grants are used up the call stays pending and nothing else is called.
+// Output: `0:tx=<hex>[,fin] calls=<ok|pending|err>,…` (`#fs:` is for the Lean side: the field section of the HEADERS frame h3 writes).
+use crate::c14_sim::{Net as CNet, NetRef as CNetRef, Rx as CRx, SimConn as CSimConn};
+use std::collections::VecDeque;
+use std::future::Future;
+use std::pin::Pin;
+use std::task::{Context, Poll};
+
+fn drive_c<F: Future + ?Sized>(f: &mut Pin<Box<F>>, net: &CNetRef, grants: &mut VecDeque<usize>) -> Option<F::Output> {
+    let w = futures_util::task::noop_waker();
+    let mut cx = Context::from_waker(&w);
+    loop {
+        for _ in 0..4 {
+            if let Poll::Ready(r) = f.as_mut().poll(&mut cx) {
+                return Some(r);
+            }
+        }
+        let k = grants.pop_front()?;
+        if let Some(s) = net.borrow().streams.get(&0) {
+            let mut s = s.borrow_mut();
+            s.tx_credit = s.tx_credit.saturating_add(k);
+        }
+    }
+}
+
+fn sdc_calls<S>(st: &mut S, payloads: Vec<Vec<Bytes>>, net: &CNetRef, grants: &mut VecDeque<usize>, calls: &mut Vec<&'static str>)
+where
+    S: SdcStream,
+{
+    for p in payloads {
+        let mut f = st.sd(Segs(p.into_iter().collect()));
+        match drive_c(&mut f, net, grants) {
+            Some(true) => calls.push("ok"),
+            Some(false) => {
+                calls.push("err");
+                return;
+            }
+            None => {
+                calls.push("pending");
+                return;
+            }
+        }
+    }
+    let mut f = st.fi();
+    match drive_c(&mut f, net, grants) {
+        Some(true) => calls.push("ok"),
+        Some(false) => calls.push("err"),
+        None => calls.push("pending"),
+    }
+}
+
+trait SdcStream {
+    fn sd<'a>(&'a mut self, b: Segs) -> Pin<Box<dyn Future<Output = bool> + 'a>>;
+    fn fi<'a>(&'a mut self) -> Pin<Box<dyn Future<Output = bool> + 'a>>;
+}
+impl SdcStream for h3::client::RequestStream<crate::c14_sim::SimStream, Segs> {
+    fn sd<'a>(&'a mut self, b: Segs) -> Pin<Box<dyn Future<Output = bool> + 'a>> {
+        Box::pin(async move { self.send_data(b).await.is_ok() })
+    }
+    fn fi<'a>(&'a mut self) -> Pin<Box<dyn Future<Output = bool> + 'a>> {
+        Box::pin(async move { self.finish().await.is_ok() })
+    }
+}
+impl SdcStream for h3::server::RequestStream<crate::c14_sim::SimStream, Segs> {
+    fn sd<'a>(&'a mut self, b: Segs) -> Pin<Box<dyn Future<Output = bool> + 'a>> {
+        Box::pin(async move { self.send_data(b).await.is_ok() })
+    }
+    fn fi<'a>(&'a mut self) -> Pin<Box<dyn Future<Output = bool> + 'a>> {
+        Box::pin(async move { self.finish().await.is_ok() })
+    }
+}
+
+fn sdc_summary(net: &CNetRef, calls: &[&'static str]) -> String {
+    let n = net.borrow();
+    let (tx, fin) = match n.streams.get(&0) {
+        Some(s) => (s.borrow().tx.clone(), s.borrow().tx_fin),
+        None => (Vec::new(), false),
+    };
+    format!("0:tx={}{} calls={}", to_hex(&tx), if fin { ",fin" } else { "" }, calls.join(","))
+}
+
+fn sdc(role: &str, wc: usize, grants: Vec<usize>, rq: Option<Vec<u8>>, payloads: Vec<Vec<Bytes>>) -> String {
+    let mut grants: VecDeque<usize> = grants.into();
+    let mut none: VecDeque<usize> = VecDeque::new();
+    let mut calls: Vec<&'static str> = Vec::new();
+    if role == "client" {
+        let net = CNet::new(false);
+        let mut builder = h3::client::builder();
+        builder.send_grease(false);
+        let mut f: Pin<Box<dyn Future<Output = _>>> = Box::pin(builder.build::<_, _, Segs>(CSimConn { net: net.clone() }));
+        let Some(Ok((_conn, mut send))) = drive_c(&mut f, &net, &mut none) else { return "client-build-failed".into() };
+        drop(f);
+        net.borrow_mut().default_tx_credit = wc;
+        let req = http::Request::builder().method("GET").uri("https://a/").body(()).expect("request");
+        let mut st = {
+            let mut f = Box::pin(send.send_request(req));
+            match drive_c(&mut f, &net, &mut grants) {
+                Some(Ok(s)) => s,
+                Some(Err(_)) => return sdc_summary(&net, &["err"]),
+                None => return sdc_summary(&net, &["pending"]),
+            }
+        };
+        calls.push("ok");
+        sdc_calls(&mut st, payloads, &net, &mut grants, &mut calls);
+        sdc_summary(&net, &calls)
+    } else {
+        let Some(rq) = rq else { return "bad-op".into() };
+        let net = CNet::new(true);
+        let mut builder = h3::server::builder();
+        builder.send_grease(false);
+        let mut f: Pin<Box<dyn Future<Output = _>>> = Box::pin(builder.build::<_, Segs>(CSimConn { net: net.clone() }));
+        let Some(Ok(mut conn)) = drive_c(&mut f, &net, &mut none) else { return "server-build-failed".into() };
+        drop(f);
+        {
+            let mut n = net.borrow_mut();
+            n.default_tx_credit = wc;
+            n.peer_open(0);
+            n.peer_send(0, CRx::Chunk(Bytes::from(rq)));
+            n.peer_send(0, CRx::Fin);
+        }
+        let resolver = {
+            let mut f = Box::pin(conn.accept());
+            match drive_c(&mut f, &net, &mut none) {
+                Some(Ok(Some(r))) => r,
+                _ => return "accept-failed".into(),
+            }
+        };
+        let mut st = {
+            let mut f = Box::pin(resolver.resolve_request());
+            match drive_c(&mut f, &net, &mut none) {
+                Some(Ok((_req, st))) => st,
+                _ => return "resolve-failed".into(),
+            }
+        };
+        {
+            let resp = http::Response::builder().status(200).body(()).expect("response");
+            let mut f = Box::pin(st.send_response(resp));
+            match drive_c(&mut f, &net, &mut grants) {
+                Some(Ok(())) => calls.push("ok"),
+                Some(Err(_)) => return sdc_summary(&net, &["err"]),
+                None => return sdc_summary(&net, &["pending"]),
+            }
+        }
+        sdc_calls(&mut st, payloads, &net, &mut grants, &mut calls);
+        sdc_summary(&net, &calls)
+    }
+}
+
 pub fn handle(w: &[&str]) -> String {
     match w {
+        ["sdc", role @ ("client" | "server"), wc, grants, rest @ ..] => {
+            let Ok(wc) = wc.parse::<usize>() else { return "bad-op".into() };
+            let mut gs = Vec::new();
+            if *grants != "-" {
+                for g in grants.split(',') {
+                    match g.parse::<usize>() {
+                        Ok(k) => gs.push(k),
+                        Err(_) => return "bad-op".into(),
+                    }
+                }
+            }
+            let mut rq = None;
+            let mut payloads = Vec::new();
+            for t in rest {
+                if let Some(h) = t.strip_prefix("#rq:") {
+                    rq = parse_hex(h);
+                } else if t.starts_with('#') {
+                    continue;
+                } else {
+                    match parse_segs(t) {
+                        Some(p) => payloads.push(p),
+                        None => return "bad-op".into(),
+                    }
+                }
+            }
+            let role = role.to_string();
+            guarded(move || sdc(&role, wc, gs, rq, payloads))
+        }
         ["wbuf", desc, pat] => {
             let mut ps = Vec::new();
             if *pat != "-" {
